@@ -1,8 +1,12 @@
 import Abyss.Props.C04
 import Abyss.Lemmas.EngineScan
+import Abyss.Lemmas.EngineIter
 #print axioms Abyss.C04_iter
 #print axioms Abyss.C04_keys_values
 #print axioms Abyss.C04_scan
 #print axioms Abyss.nextKeyPieceOffset_spec
 #print axioms Abyss.htxNext_bytes
 #print axioms Abyss.reach_htxLen
+#print axioms Abyss.iterNew_bytes
+#print axioms Abyss.iterNextOffset_bytes
+#print axioms Abyss.iterNext_bytes
